@@ -138,3 +138,69 @@ for st in STREAMS:
         OBLIGATIONS.append(Obl("template2:%s:d%d" % (st.id, dec), template,
                                {"sid": C(st.id), "dec": C(dec), "streaming": C(False), "guided": B, "pos": I(0, n - 1), "x": BYTE, "pos2": I(0, n - 1), "a2": I(0, NA), "how": C(1)},
                                shards=[{"pos": C(p)} for p in range(n)], thorough_budget=400, tiers=("thorough",) if dec == 0 else ()))
+
+
+# ---- (c) primitive content damage: header of a universal primitive type followed by symbolic content octets ------------
+REAL_ALPHABET = tuple(b"01.e-naif +9E_,x") + (0x00, 0x80, 0xFF)  # the first 10 are the quick tier's
+UTF_ALPHABET = (0x41, 0x00, 0x7F, 0x80, 0xBF, 0xC0, 0xC3, 0xE2, 0xED, 0xA0, 0xF4, 0x90, 0xFF)
+ASCII_ALPHABET = (0x41, 0x00, 0x20, 0x30, 0x7F, 0x80, 0xFF)  # C-level codecs enumerate octets: structural representatives only
+WIDE_ALPHABET = (0x00, 0x41, 0xD8, 0xDC, 0xFF, 0x10, 0x11)
+BITS_ALPHABET = (0x00, 0x01, 0x55, 0x80, 0xFF)  # BIT STRING contents are enumerated by the engine; the unused-bits octet stays unconstrained  # utf-16 surrogates, utf-32 code points beyond 10FFFF
+LEAF_KINDS = (
+    # (universal tag, guiding schema, content alphabet or None for any octet)
+    (0x01, T("BOOL"), None), (0x02, T("INT"), None), (0x03, T("BITS"), BITS_ALPHABET), (0x05, T("NULL"), None), (0x06, T("OID"), None),
+    (0x09, T("REAL"), REAL_ALPHABET), (0x0A, T("ENUM"), None), (0x0C, T("STR:UTF8"), UTF_ALPHABET), (0x16, T("STR:IA5"), ASCII_ALPHABET),
+    (0x1E, T("STR:BMP"), WIDE_ALPHABET), (0x1C, T("STR:Universal"), WIDE_ALPHABET), (0x13, T("STR:Printable"), ASCII_ALPHABET), (0x12, T("STR:Numeric"), ASCII_ALPHABET),
+    (0x18, T("STR:GeneralizedTime"), ASCII_ALPHABET), (0x17, T("STR:UTCTime"), ASCII_ALPHABET), (0x07, T("STR:ObjectDescriptor"), ASCII_ALPHABET),
+)
+
+
+def leaf(kind, dec, streaming, guided, n, fo, b1, b2, b3):
+    """<tag> <n> followed by n content octets: the first one unconstrained, the others from the kind's alphabet (or unconstrained)."""
+    tagoct, t, alpha = LEAF_KINDS[kind]
+    rest = []
+    if alpha is not None and tagoct not in (0x09, 0x03):  # string kinds: every content octet from the alphabet
+        if fo >= len(alpha):
+            raise Skip()
+        fo = alpha[fo]
+    for b in (b1, b2, b3):
+        if alpha is not None:
+            if b >= len(alpha):
+                raise Skip()
+            b = alpha[b]
+        rest.append(b)
+    data = bytes([tagoct, n] + ([fo] + rest)[:n])
+    return _decode(dec, streaming, data, mk_type(t) if guided else None)
+
+
+for kind in range(len(LEAF_KINDS)):
+    _tag, _t, _alpha = LEAF_KINDS[kind]
+    _hi = 255 if _alpha is None else len(_alpha) - 1
+    for dec in range(3):
+        _tiers = ("quick", "thorough") if dec == 0 or _tag in (0x01, 0x0C) else ("thorough",)
+        if _tag == 0x09:
+            # REAL: the first content octet selects the form (binary / special / ISO 6093 NR1-3); text forms get 3 characters
+            OBLIGATIONS.append(Obl("leaf:09:d%d:bin" % dec, leaf,
+                                   {"kind": C(kind), "dec": C(dec), "streaming": B, "guided": B, "n": I(0, 3), "fo": BYTE, "b1": I(_hi - 2, _hi), "b2": I(_hi - 2, _hi), "b3": C(0)},
+                                   shards=[{"fo": I(0, 0x3F)}, {"fo": I(0x40, 0x7F)}, {"fo": I(0x80, 0xBF)}, {"fo": I(0xC0, 0xFF)}], budget=200, thorough_budget=600, tiers=_tiers,
+                                   doc="REAL: every first content octet, then octets from {00, 80, FF}"))
+            for _nr in (1, 2, 3):
+                OBLIGATIONS.append(Obl("leaf:09:d%d:nr%d" % (dec, _nr), leaf,
+                                       {"kind": C(kind), "dec": C(dec), "streaming": C(False), "guided": B, "n": I(2, 4), "fo": C(_nr), "b1": I(0, 9), "b2": I(0, 9), "b3": I(0, 9)},
+                                       thorough={"b1": I(0, _hi), "b2": I(0, _hi), "b3": I(0, _hi), "streaming": B},
+                                       shards=[{"b1": C(x_)} for x_ in range(10)], thorough_shards=[{"b1": C(x_)} for x_ in range(_hi + 1)],
+                                       budget=200, thorough_budget=900, tiers=_tiers,
+                                       doc="REAL in ISO 6093 NR%d form with 1..3 characters from the REAL text alphabet" % _nr))
+            continue
+        _wide = _alpha is WIDE_ALPHABET
+        OBLIGATIONS.append(Obl("leaf:%02x:d%d" % (_tag, dec), leaf,
+                               {"kind": C(kind), "dec": C(dec), "streaming": B, "guided": B, "n": I(0, 4 if _wide else 3), "fo": BYTE if _alpha is None or _tag == 0x03 else I(0, _hi),
+                                "b1": I(0, _hi), "b2": I(0, _hi), "b3": I(0, _hi) if _wide else C(0)},
+                               thorough={"n": I(0, 4), "b3": I(0, _hi)}, budget=200, thorough_budget=600, tiers=_tiers,
+                               shards=([{"streaming": C(s_), "fo": C(f_)} for s_ in (False, True) for f_ in range(_hi + 1)] if _wide else
+                                       [{"streaming": C(False)}, {"streaming": C(True)}] if _alpha is UTF_ALPHABET else
+                                       [{"n": C(n_)} for n_ in range(4)] if _tag == 0x03 else None),
+                               thorough_shards=([{"streaming": C(s_), "fo": C(f_)} for s_ in (False, True) for f_ in range(_hi + 1)] if _wide else
+                                                [{"streaming": C(s_), "fo": C(f_)} for s_ in (False, True) for f_ in range(_hi + 1)] if _alpha is UTF_ALPHABET else
+                                                [{"n": C(n_)} for n_ in range(5)] if _tag == 0x03 else None),
+                               doc="universal primitive type %02x with 0..3 (4) symbolic content octets" % _tag))
